@@ -12,7 +12,7 @@ func textPrefixes(alphabet []string) [][]byte {
 		"%", "%%", "%d", "%s", "%v", "%q", "100% ", "load 100% on ", "from%3D", "a%20b=", "%!", "%!(EXTRA ", "%!(EXTRA string=x) ",
 		"(MISSING)", "%!d(MISSING)", "%!s(MISSING) ", "log: %!v(MISSING) -> ", "%!(NOVERB)", "%!(BADINDEX)", "%!(BADWIDTH)", "%[1]d", "%[2]*d", "%*d", "%.*s",
 		"{{.}}", "{{", "$1", "${1}", "$0", `\1`, `\\`, "\x00", "\x00\x00", "\r\n", "\n", "\t", " ", "  ", "a b", "Total size: ", "<td>Free space: ",
-		"urn:uuid:", "xmlns:u=urn:uuid:", "v", "V", "0x", "&nbsp;", "&", "\"", "'", "`",
+		"used, total: ", ",", "a,b;c:d ", "1,234 ", "x_y_z ", ";", "'", "|", "~", "#", "\u00a0", "\u2009", "urn:uuid:", "xmlns:u=urn:uuid:", "v", "V", "0x", "&nbsp;", "&", "\"", "'", "`",
 		"Část M", "Část MDCLXVI", "Část mdclxvi", "日本語XVI", "€M", " I", "\U0001F600DCLXVI ", "ééééIVXLCDM",
 		"Část 2021-01-01", "日本語1.2.3-rc.1", "€1 024 KiB", "\U0001F600urn:uuid:", "ééABCDEF-abcdef",
 	} {
